@@ -9,7 +9,7 @@ TB_COMMON = [
 PROPS = {
     'C05': {
         'title': 'Commit buffers, commits and logs round-trip every operation sequence',
-        'modules': ['ColumnVerif.Props.C05', 'ColumnVerif.Props.C05swap'],
+        'modules': ['ColumnVerif.Props.C05', 'ColumnVerif.Props.C05swap', 'ColumnVerif.Props.C01widen'],
         'runs': [{'mode': 'codec'}],
         'trusted_base': TB_COMMON + [
             "modelled, not verified: Go slices/append, encoding/binary, the s2 compressor (log files are compared after decompression)",
@@ -19,7 +19,7 @@ PROPS = {
             "the flat byte layout of a buffer is the concatenation of its sections (checked byte-exactly by the codec correspondence)",
             "third sentence of the property (swap): proved with the hypothesis NoLater (no later op on the swapped offset in the chunk) for resizing swaps; without it the sentence is false of model and code alike — finding D12, counterexample theorem swapAt_resize_later_counterexample",
         ],
-        'level_text': "Lean theorems over the byte-exact codec model: every well-formed op sequence of any length decodes to itself (Seek), every chunk of an interleaved buffer reads as that chunk's ops in write order (Range), sections decode from their header values; the wire round trips of buffers, commits and logs; and the reader-side swap (Reader.Swap* as Buf.swapAt, the function the driver's `swap` op runs): a same-shape swap rewrites exactly the k-th op of the chunk into a Put of the result, in place, every other chunk untouched; a resizing swap marks it Skip and appends the Put at the end of the chunk's ops, and later readers see, for every offset, the same visible sequence with that merge turned into a put — provided no later op on that offset exists (swapAt_resize_visible), with the kernel-checked counterexample when one does (finding D12); plus byte-exact differential against commit.Buffer/Reader/Commit on exhaustive short and random long sequences and an implementation-only decode∘encode oracle.",
+        'level_text': "Lean theorems over the byte-exact codec model: every well-formed op sequence of any length decodes to itself (Seek), every chunk of an interleaved buffer reads as that chunk's ops in write order (Range), sections decode from their header values; the wire round trips of buffers, commits and logs; and the reader-side swap (Reader.Swap* as Buf.swapAt, the function the driver's `swap` op runs): a same-shape swap rewrites exactly the k-th op of the chunk into a Put of the result, in place, every other chunk untouched; a resizing swap marks it Skip and appends the Put at the end of the chunk's ops, and later readers see, for every offset, the same visible sequence with that merge turned into a put — provided no later op on that offset exists (swapAt_resize_visible), with the kernel-checked counterexample when one does (finding D12); plus byte-exact differential against commit.Buffer/Reader/Commit on exhaustive short and random long sequences and an implementation-only decode∘encode oracle; the any-size accessors Reader.Int/Uint and Buffer.PutAny over every Go integer type (Props/C01widen, ops `readnum`, `putany`), and writing on after Buffer.ReadFrom (`loadfrom`: RawBuf.toBuf, theorem toRaw_toBuf).",
         'technique': 'Lean 4 proof (induction over op lists) + byte-exact model/implementation correspondence',
         'design_ref': '§6 C05',
     },
